@@ -161,8 +161,10 @@ impl Template {
                                 w.expr_stmt(|w| {
                                     write!(
                                         w,
-                                        "var {}=D('{}#{}',(require,exports,module)=>{{{}}})()",
-                                        ident, &self.path, module_name.name, content
+                                        "var {}=D({},(require,exports,module)=>{{{}}})()",
+                                        ident,
+                                        gen_lit_str(&format!("{}#{}", &self.path, module_name.name)),
+                                        content
                                     )?;
                                     Ok(())
                                 })?;
